@@ -232,6 +232,9 @@ class CallMixin:
             if isinstance(o, type):
                 return self.construct(st, o, args, kwargs, node)
             if inspect.isfunction(o):
+                if key_of_function(o) in self.concrete_eval and all(isinstance(a, PyC) for a in args) and not kwargs:
+                    self.trusted_used.add(f"reflection constant: {key_of_function(o)} evaluated on the live classes")
+                    return [(st, PyC(o(*[a.obj for a in args])))]
                 return self.call_function(st, o, args, kwargs, node)
             if inspect.ismethod(o):
                 return self.call_function(st, o.__func__, [PyC(o.__self__)] + args, kwargs, node)
@@ -485,9 +488,13 @@ class CallMixin:
                     s.env = saved_env
                     out.append((s, v))
             else:
+                is_gen = any(isinstance(x, (ast.Yield, ast.YieldFrom)) for x in ast.walk(n))
                 for s, sig in self.exec_block(s0, n.body):
+                    ylist = s.env.get("__yield__", PyList([], "list"))
                     s.env = saved_env
-                    if sig is None:
+                    if is_gen and (sig is None or sig[0] == "return"):
+                        out.append((s, ylist))
+                    elif sig is None:
                         out.append((s, PyC(None)))
                     elif sig[0] == "return":
                         out.append((s, sig[1]))
@@ -540,7 +547,10 @@ class CallMixin:
         if isinstance(it, PyC) and isinstance(it.obj, (tuple, list)):
             return [PyC(x) for x in it.obj]
         if isinstance(it, PyC) and isinstance(it.obj, (set, frozenset)):
-            return None
+            # iteration order of a set is arbitrary: the executor takes one order (by name) and records the fact;
+            # order-independence of the outputs is the det@setloop obligation of C09
+            self.set_iterations.append(sorted((getattr(x, "__name__", repr(x)) for x in it.obj)))
+            return [PyC(x) for x in sorted(it.obj, key=lambda x: getattr(x, "__name__", repr(x)))]
         if isinstance(it, dict):
             return None
         return None
